@@ -307,9 +307,14 @@ func (server *SugarDB) setExpiry(ctx context.Context, key string, expireAt time.
 		ExpireAt: expireAt,
 	}
 
-	// If the slice of keys associated with expiry time does not contain the current key, add the key.
+	// Keep the slice of keys associated with an expiry time in step: a key that gets an expiry time is added
+	// if it is not there yet, a key whose expiry time is removed (persisted) is taken out.
 	server.keysWithExpiry.rwMutex.Lock()
-	if !slices.Contains(server.keysWithExpiry.keys[database], key) {
+	if expireAt == (time.Time{}) {
+		server.keysWithExpiry.keys[database] = slices.DeleteFunc(server.keysWithExpiry.keys[database], func(k string) bool {
+			return k == key
+		})
+	} else if !slices.Contains(server.keysWithExpiry.keys[database], key) {
 		server.keysWithExpiry.keys[database] = append(server.keysWithExpiry.keys[database], key)
 	}
 	server.keysWithExpiry.rwMutex.Unlock()
